@@ -284,6 +284,13 @@ def make_stock(fd, cfg, cls_name, solver=None, lm=None, inflow=None, stock=None)
         kw["inflow"] = fd.StockArray(dims=dims, values=_as_given(inflow, cfg.get("layout")))
     if stock is not None:
         kw["stock"] = fd.StockArray(dims=dims, values=_as_given(stock, cfg.get("layout")))
+    if lm is None and cls_name != "SimpleFlowDrivenStock" and cfg["extra"] and (2 * len(cfg["items"]) + len(cfg["model"])) % 7 == 3 and len(cfg["items"]) <= 60:
+        # look-alike offer: a lifetime model over the same letters whose labels stand in ANOTHER ORDER (parameters in that order).  The
+        # stock may refuse it (then the ordinary one is built below); if it takes it, every label evolves with ITS parameters
+        try:
+            return cls(**dict(kw, lifetime_model=_lm_other_label_order(fd, cfg)))
+        except Exception:
+            pass
     if lm is None and cls_name != "SimpleFlowDrivenStock" and cfg.get("settings_late") and len(cfg["items"]) % 2 == 1:
         # the settings of the lifetime model are changed on the finished stock (stock.lifetime_model.inflow_at = ...), before anything
         # was computed: what counts is what the model holds when its tables are built
@@ -315,6 +322,19 @@ def make_stock(fd, cfg, cls_name, solver=None, lm=None, inflow=None, stock=None)
             cfg["tdim"].items[:] = final_items
         return s_prov
     s_new = cls(**kw)
+    if lm is None and cls_name != "SimpleFlowDrivenStock" and (len(cfg["items"]) + 2 * len(cfg["model"])) % 5 == 2:
+        # look-alike offer: the stock's lifetime model is offered to a second stock whose time dimension has the same letter and length
+        # but other years; whatever becomes of that offer (it is refused), the first stock computes on ITS years
+        try:
+            i0 = cfg["items"][0]
+            tdim2 = fd.Dimension(letter=cfg["tl"], name=cfg["tdim"].name, items=[i0 + 2 * (x - i0) for x in cfg["items"]])
+            dims2 = fd.DimensionSet(dim_list=[tdim2] + [cfg["U"][l] for l in cfg["extra"]])
+            kw2 = dict(dims=dims2, time_letter=cfg["tl"], name="another stock", lifetime_model=s_new.lifetime_model)
+            if cls_name == "StockDrivenDSM":
+                kw2["solver"] = kw["solver"]
+            cls(**kw2)
+        except Exception:
+            pass
     if lm is None and cfg.get("layout", "C") == "C":
         # the stock the user goes on with is sometimes a copy of the one that was built (a pickle round trip as after multiprocessing,
         # a deep copy as in a scenario loop): it is a stock of its own with the same data and settings
@@ -333,6 +353,20 @@ def make_stock(fd, cfg, cls_name, solver=None, lm=None, inflow=None, stock=None)
         except Exception:
             pass
     return s_new
+
+
+def _lm_other_label_order(fd, cfg):
+    """a lifetime model over the letters of cfg's dims with the labels of one non-time dimension in another order; its parameters are
+    plain arrays in THAT order, so that by label they are the parameters of cfg["truth"]"""
+    l = cfg["extra"][0]
+    ax = 1 + cfg["extra"].index(l)
+    n = len(cfg["U"][l].items)
+    perm = list(range(1, n)) + [0]
+    d_p = fd.Dimension(letter=l, name=cfg["U"][l].name, items=[cfg["U"][l].items[j] for j in perm])
+    dims_p = fd.DimensionSet(dim_list=[cfg["tdim"]] + [d_p if l_ == l else cfg["U"][l_] for l_ in cfg["extra"]])
+    cfg_p = dict(cfg, param_form="ndarray", prm_dtype=None, truth={k: np.take(np.array(v, dtype=float), perm, axis=ax) for k, v in cfg["truth"].items()})
+    cfg_p.pop("handed", None)
+    return build_lm(fd, cfg_p, dims=dims_p)
 
 
 def _as_given(v, layout=None):
